@@ -72,6 +72,16 @@ CHECKS["C14"] = (
     "DESIGN.md section 6, C14",
 )
 
+CHECKS["C16"] = (
+    "Hypothesis-generated observed/predicted arrays and fitted models against textbook numpy formulas; threshold-straddling gate cases",
+    "Generated-input search: BaselineMetrics and ReportingMetrics on generated series (NaN/inf rows, zero/negative/tiny means, "
+    "constant series, any parameter count) against independent numpy formulas; fitted hourly models whose thresholds are placed "
+    "just above/below/on the fitted ratios (stored metrics = metrics of predict(baseline) on measured hours, gate iff both ratios "
+    "miss); fitted daily/billing models (error formulas, CVRMSE gate, stored error); CalTRACK ModelMetrics.",
+    "Trusted: ref_metrics in vf/props/c16.py, scipy.stats.t; R-squared/PNRMSE/uncertainty definitions as documented by the module.",
+    "DESIGN.md section 6, C16",
+)
+
 PENDING_REASON = "check not built yet in this session (work in progress; property-based testing applies and is planned, see DESIGN.md section 6)"
 
 
